@@ -188,3 +188,27 @@ func VerifAlignSecond() uint32 {
 		time.Sleep(time.Duration(1_000_000_000-now.Nanosecond()) + time.Millisecond)
 	}
 }
+
+// EraseAllOverDiskLimit runs the real goEraseHistoric goroutine with a disk limit of 1 byte until the historic queue
+// is empty (every iteration: pop the oldest, window check, "violates disk size limit" -> erase, 200 ms sleep).
+// The goroutine then blocks in cond.Wait for ever: the caller must not use this Shard afterwards (restart follows).
+func (v *VerifPipe) EraseAllOverDiskLimit(timeout time.Duration) bool {
+	v.S.mu.Lock()
+	v.S.config.MaxHistoricDiskSize = 1
+	v.S.config.HistoricWindow = 86400
+	v.S.mu.Unlock()
+	var wg sync.WaitGroup
+	wg.Add(1)
+	ctx, cancel := context.WithCancel(context.Background())
+	defer cancel()
+	go v.S.goEraseHistoric(&wg, ctx)
+	deadline := time.Now().Add(timeout)
+	for time.Now().Before(deadline) {
+		if len(v.Hist()) == 0 {
+			time.Sleep(250 * time.Millisecond) // the last iteration's erase + sleep
+			return len(v.Hist()) == 0
+		}
+		time.Sleep(20 * time.Millisecond)
+	}
+	return false
+}
